@@ -114,6 +114,15 @@ def setupResolver (env : Env) (cfg : Cfg) (schema : Json) (p : Json) : Res RStat
   let memoCap := match fld r "memoCap" with | some .null => none | some j => asNatJ j | none => some 1024
   mkResolver env registeredMetas base schema (decStore (fld r "store")) cacheRemote memoCap
 
+/-- the guarded evaluator of JS.Props.C03 (same definition; the driver must not import proofs):
+    before every recursive evaluation the shape of the schema is checked -/
+def guardRecD (d : Draft) (rec : Rec) : Rec :=
+  fun i s => if Spec.shapedR d s then rec i s else raiseG (.crash "UNSHAPED-REFERENCE-TARGET")
+
+def evalGD (env : Env) (impl : FmtImpl) (d : Draft) (fc : Option FormatChecker) : Nat → Rec
+  | 0 => fun _ _ => stopG .fuel
+  | n + 1 => evalStep env impl (d.cfg fc) (guardRecD d (evalGD env impl d fc n))
+
 /-- VAL: one `iter_errors` run consumed per `budget`, from a fresh resolver -/
 def runVAL (env : Env) (p : Json) : Except Query Json :=
   let (cfg, _) := decCfg (fldD p "cls" .null) (fldD p "fc" .null)
@@ -127,7 +136,10 @@ def runVAL (env : Env) (p : Json) : Except Query Json :=
   | .miss q => .error q
   | .raise e => .ok (.obj [("ctor".toList, encExc e)])
   | .ok st =>
-    let o := eval env noFmtImpl cfg fuel inst schema budget st
+    let guarded := match fld p "guard" with | some (.bool true) => true | _ => false
+    let o := match guarded, decCfg (fldD p "cls" .null) (fldD p "fc" .null) with
+      | true, (c, some d) => evalGD env noFmtImpl d c.formatChecker fuel inst schema budget st
+      | _, _ => eval env noFmtImpl cfg fuel inst schema budget st
     match o.stop with
     | .miss q => .error q
     | _ => .ok (encOut o)
@@ -320,7 +332,11 @@ def runSPEC (env : Env) (p : Json) : Except Query Json :=
     | some (pat, s) => .error (.reSearch pat s)
     | none =>
       .ok (.obj [ ("valid".toList, .bool (Spec.valid env d schema inst)),
-                  ("shaped".toList, .bool (Spec.shaped d schema)) ])
+                  ("shaped".toList, .bool (Spec.shaped d schema)),
+                  ("shapedR".toList, .bool (Spec.shapedR d schema)),
+                  ("numSafe".toList, .bool (Spec.numSafe schema)),
+                  ("typesKnown".toList, .bool (Spec.typesKnown d schema)),
+                  ("wf".toList, .bool (Spec.WF schema && Spec.WF inst)) ])
 
 /-- FMT: `FormatChecker.check(instance, format)` on a described checker -/
 def runFMT (env : Env) (p : Json) : Except Query Json :=
